@@ -14,7 +14,6 @@ package main
 import (
 	"fmt"
 	"reflect"
-	"sort"
 	"strings"
 	"time"
 
@@ -197,22 +196,33 @@ func typeName(v any) string {
 func classOf(g *grammar, t *tmpl) string {
 	progs := g.programs(t.sort, t.fill(nil))
 	prog, clean, _ := safeParse(progs[0])
-	if !clean || len(prog.Body) == 0 {
+	if !clean {
+		return ""
+	}
+	return classOfProg(t.sort, prog)
+}
+
+// classOfProg: the class of the tree of sort s that the program holds (for P and T: inside the first context).
+func classOfProg(s sort_, prog *ast.ProgramNode) string {
+	if prog == nil || len(prog.Body) == 0 {
 		return ""
 	}
 	st, ok := prog.Body[0].(*ast.ExpressionStatementNode)
 	if !ok {
 		return typeName(prog.Body[0])
 	}
-	switch t.sort {
+	switch s {
 	case sP:
 		if sw, ok := st.Expression.(*ast.SwitchExpressionNode); ok && len(sw.Cases) > 0 {
 			return typeName(sw.Cases[0].Pattern)
 		}
 		return ""
 	case sT:
-		if vd, ok := st.Expression.(*ast.VariableDeclarationNode); ok {
-			return typeName(vd.TypeNode)
+		switch d := st.Expression.(type) {
+		case *ast.VariableDeclarationNode:
+			return typeName(d.TypeNode)
+		case *ast.MethodDefinitionNode:
+			return typeName(d.ReturnType)
 		}
 		return ""
 	}
@@ -323,6 +333,7 @@ func eq(a, b reflect.Value, path string, diff *string) bool {
 
 // roundTrip: "" when the program does not parse cleanly (not a case) or round-trips; otherwise what went wrong.
 type rtResult struct {
+	tree    *ast.ProgramNode
 	clean   bool
 	bad     bool
 	printed string
@@ -335,6 +346,7 @@ func roundTrip(src string) (res rtResult) {
 		return
 	}
 	res.clean = true
+	res.tree = t1
 	defer func() {
 		if p := recover(); p != nil {
 			res.bad = true
@@ -450,6 +462,12 @@ func (x *explorer) check(n *node) {
 			x.r.Count("not_parsing_cleanly", 1)
 			continue
 		}
+		if got := classOfProg(s, rt.tree); got != n.t.class && len(rt.tree.Body) == 1 {
+			// the parser associated the source differently from the tree the templates describe (e.g. `return + a` is
+			// `return (+a)`): not the case being enumerated; the tree it did build is enumerated under its own root.
+			x.r.Count("reassociated_by_the_parser_skipped", 1)
+			continue
+		}
 		x.r.NT(1)
 		x.r.Outcome("root " + classLabel(n.t.class))
 		if !rt.bad {
@@ -462,54 +480,121 @@ func (x *explorer) check(n *node) {
 	}
 }
 
+// neutral contexts / neutral operands used to decide which side of a failing parent-child pair is at fault
+var neutralCtx = map[sort_][]string{
+	sE: {"loop\n  «S»\nend", "foo(«E»)", "[«E», 0]", "x = «E»", "z + «E»", "«E» + z", "«E».foo", "«E»[0]", "z.foo(«E»)"},
+	sS: {"loop\n  «S»\nend", "while x\n  «S»\n  y\nend", "class X\n  «S»\nend"},
+	sP: {"[«P»]", "«P» as x", "X(a: «P»)", "«P» || 9", "«P»?"},
+	sT: {"X[«T»]", "|a: «T»|: Int", "«T» | Nil", "«T»?", "~«T»"},
+}
+var neutralKids = map[sort_][]string{
+	sE: {"b + c", "b && c", "-b", "b = c", "if b then c", "unless b then c", "new(b)", "!{b}", "b...c"},
+	sS: {"def f; end", "class X; end", "using Y", "b + c"},
+	sP: {"2 || 3", "2 as y", "< 2", "[2]"},
+	sT: {"Int | String", "Int?", "~Int", "Foo[Int]"},
+}
+
+func bare(t *tmpl) *node { return &node{t: t, kids: make([]*node, len(t.holes)), par: make([]bool, len(t.holes))} }
+
+// failing counts the texts (programs of sort s) whose round trip is broken.
+func (x *explorer) failing(s sort_, texts []string) int {
+	n := 0
+	for _, t := range texts {
+		if x.fails(s, t) {
+			n++
+		}
+	}
+	return n
+}
+
+// localise names the construction at fault, so that one printer defect gets one signature:
+//
+//	node=X                          X breaks on its own (leaf operands, top level);
+//	node=X breaks when indented     X round-trips at top level but not as a statement of an indented block;
+//	node=X misprints its operands   X breaks with at least two of four ordinary operands in one hole (it prints that
+//	                                operand without parentheses / on the wrong line), or only with a combination of operands;
+//	node=Y is not parenthesised     Y breaks inside at least two ordinary contexts (call argument, list element, assignment,
+//	                                binary operand, receiver): nothing parenthesises it, e.g. its precedence is missing;
+//	parent=X child=Y                only this combination breaks.
 func (x *explorer) localise(n *node) string {
-	// 1. the root with leaves only
-	bare := &node{t: n.t, kids: make([]*node, len(n.t.holes)), par: make([]bool, len(n.t.holes))}
-	if x.fails(progSort(n.t), bare.text()) {
+	ps := progSort(n.t)
+	if x.fails(ps, bare(n.t).text()) {
 		return "print/reparse: node=" + classLabel(n.t.class)
 	}
-	// 2. a child on its own
+	holeSort := func(i int) sort_ {
+		if n.t.holes[i] == sS {
+			return sE
+		}
+		return n.t.holes[i]
+	}
 	for i, k := range n.kids {
-		if k == nil {
-			continue
-		}
-		cs := n.t.holes[i]
-		if cs == sS {
-			cs = sE
-		}
-		if x.fails(cs, k.text()) {
+		if k != nil && x.fails(holeSort(i), k.text()) {
 			return x.localise(k)
 		}
 	}
-	// 3. the root with exactly one of its children
 	for i, k := range n.kids {
 		if k == nil {
 			continue
 		}
-		one := &node{t: n.t, kids: make([]*node, len(n.t.holes)), par: make([]bool, len(n.t.holes))}
+		one := bare(n.t)
 		one.kids[i], one.par[i] = k, n.par[i]
-		if x.fails(progSort(n.t), one.text()) {
-			// is the grandchild needed?
-			flat := &node{t: k.t, kids: make([]*node, len(k.t.holes)), par: make([]bool, len(k.t.holes))}
-			one.kids[i] = flat
-			if x.fails(progSort(n.t), one.text()) {
-				return fmt.Sprintf("print/reparse: parent=%s child=%s", classLabel(n.t.class), classLabel(k.t.class))
+		if !x.fails(ps, one.text()) {
+			continue
+		}
+		// this child alone (with its own children) breaks the parent. Does it need its own children for that?
+		flat := bare(n.t)
+		flat.kids[i], flat.par[i] = bare(k.t), n.par[i]
+		kid := k
+		if x.fails(ps, flat.text()) {
+			kid = bare(k.t)
+		}
+		// (a) the child inside ordinary contexts
+		ktext := kid.text()
+		ctxSort := sE
+		if n.t.holes[i] == sP || n.t.holes[i] == sT {
+			ctxSort = n.t.holes[i]
+		}
+		bad := 0
+		for _, c := range neutralCtx[n.t.holes[i]] {
+			ct := compile(sE, c)
+			kt := ktext
+			if needsParens(kid.t, ct.holes[0]) {
+				kt = "(" + kt + ")"
 			}
-			for j, gk := range k.kids {
-				if gk != nil {
-					return fmt.Sprintf("print/reparse: parent=%s child=%s grandchild=%s (hole %d)", classLabel(n.t.class), classLabel(k.t.class), classLabel(gk.t.class), j)
+			if x.fails(ctxSort, ct.fill([]string{kt})) {
+				if ct.holes[0] == sS {
+					return "print/reparse: node=" + classLabel(kid.t.class) + " breaks when indented inside a block"
 				}
+				bad++
 			}
 		}
-	}
-	var cs []string
-	for _, k := range n.kids {
-		if k != nil {
-			cs = append(cs, classLabel(k.t.class))
+		if bad >= 2 {
+			return "print/reparse: node=" + classLabel(kid.t.class) + " is not parenthesised when nested"
 		}
+		// (b) the parent with ordinary operands in this hole
+		var texts []string
+		for _, nk := range neutralKids[n.t.holes[i]] {
+			ch := make([]string, len(n.t.holes))
+			ch[i] = nk
+			if n.t.holes[i] != sS {
+				ch[i] = "(" + nk + ")"
+			}
+			texts = append(texts, n.t.fill(ch))
+		}
+		if x.failing(ps, texts) >= 2 {
+			return fmt.Sprintf("print/reparse: node=%s misprints its operands", classLabel(n.t.class))
+		}
+		if kid != k {
+			return fmt.Sprintf("print/reparse: parent=%s child=%s", classLabel(n.t.class), classLabel(k.t.class))
+		}
+		for _, gk := range k.kids {
+			if gk != nil {
+				return fmt.Sprintf("print/reparse: parent=%s child=%s grandchild=%s", classLabel(n.t.class), classLabel(k.t.class), classLabel(gk.t.class))
+			}
+		}
+		return fmt.Sprintf("print/reparse: parent=%s child=%s", classLabel(n.t.class), classLabel(k.t.class))
 	}
-	sort.Strings(cs)
-	return fmt.Sprintf("print/reparse: parent=%s children=%s", classLabel(n.t.class), strings.Join(cs, "+"))
+	return fmt.Sprintf("print/reparse: node=%s misprints its operands", classLabel(n.t.class))
 }
 
 // A child is inserted in parentheses (which the parser drops) whenever it is not a single token, so that the tree built is
